@@ -1,8 +1,9 @@
-(* findall/3 of this engine does not COPY the collected instances (standard Prolog does): an unbound variable of the
-   caller that occurs in an instance is the caller's variable itself inside the result list.  Witness, on the model of
-   the compiled code:    t(V) :- findall(X, X = V, [b]).     ?- t(V).    answers V = b
-   (with copied instances the list would be [_G] for a fresh _G, and V would stay unbound) - and the same on the
-   clause-level reference.  The implementation answers V = b as well (harness: lib/findall_diag.py, notes/C09.md). *)
+(* findall/3 collects COPIES of the instances (engine.py YP.findall since the repair D27, as standard Prolog): an unbound
+   variable of the caller that occurs in an instance is a new variable inside the result list.  Witness, on the model of
+   the compiled code and on the clause-level reference:
+       t(V) :- findall(X, X = V, [b]).        ?- t(V).      one answer, V stays unbound
+       u(V,L) :- findall(X, X = V, L), V = a.  ?- u(V,L).    V = a, L = [_G] with _G a variable other than V
+   (before D27 the engine answered V = b and L = [a]: the instance was the caller's variable itself). *)
 From Coq Require Import String.
 From Coq Require Import List Arith ZArith.
 Import ListNotations.
@@ -12,12 +13,22 @@ Local Open Scope list_scope.
 
 Definition share_prog : program :=
   [ {| c_name := d "t"; c_args := [SVar (d "V")];
-       c_body := BCall (d "findall") [SVar (d "X"); SFun (d "=") [SVar (d "X"); SVar (d "V")]; SList [SAtom (d "b")]] |} ].
+       c_body := BCall (d "findall") [SVar (d "X"); SFun (d "=") [SVar (d "X"); SVar (d "V")]; SList [SAtom (d "b")]] |};
+    {| c_name := d "u"; c_args := [SVar (d "V"); SVar (d "L")];
+       c_body := BAnd (BCall (d "findall") [SVar (d "X"); SFun (d "=") [SVar (d "X"); SVar (d "V")]; SVar (d "L")])
+                      (BCall (d "=") [SVar (d "V"); SAtom (d "a")]) |} ].
 
-Lemma findall_shares_caller_variables :
+Definition is_var_other_than (v : nat) (t : term) : bool :=
+  match t with TVar w => negb (Nat.eqb v w) | _ => false end.
+
+Lemma findall_copies_instances :
   exists ir, compile_program share_prog = Some ir /\
-  map (fun x => den (sto x) (TVar 0)) (fst (query 10 ir (d "t") [TVar 0] {| sto := []; nxt := 1 |})) = [TAtom (d "b")] /\
-  map (fun x => den (sto x) (TVar 0)) (fst (solveA 10 share_prog (d "t") [TVar 0] {| sto := []; nxt := 1 |})) = [TAtom (d "b")].
+  map (fun x => den (sto x) (TVar 0)) (fst (query 10 ir (d "t") [TVar 0] {| sto := []; nxt := 1 |})) = [TVar 0] /\
+  map (fun x => den (sto x) (TVar 0)) (fst (solveA 10 share_prog (d "t") [TVar 0] {| sto := []; nxt := 1 |})) = [TVar 0] /\
+  map (fun x => match den (sto x) (TVar 1) with
+                | TFun _ [e; _] => (den (sto x) (TVar 0), is_var_other_than 0 e)
+                | _ => (TVar 0, false) end)
+      (fst (query 10 ir (d "u") [TVar 0; TVar 1] {| sto := []; nxt := 2 |})) = [(TAtom (d "a"), true)].
 Proof.
-  eexists. split; [vm_compute; reflexivity|]. split; vm_compute; reflexivity.
+  eexists. split; [vm_compute; reflexivity|]. split; [|split]; vm_compute; reflexivity.
 Qed.
